@@ -60,6 +60,8 @@ Section Variants.
     match v with VNull => TNull | VInt _ => TInteger | VLong _ => TLong | VFloat _ => TFloat | VDouble _ => TDouble | VString _ => TString
                | VBool _ => TBoolean | VDateTime _ => TDateTime | VTimeSpan _ => TTimeSpan | VObject _ => TObject | VArray _ => TArray end.
 
+  Variable arr_to_string : list value -> str.   (* elements' String() joined by commas: an oracle *)
+
   Definition conv_err : str := [67; 79; 78; 86].   (* CONV_NOT_SUPPORTED, abbreviated *)
   Definition op_err : str := [79; 80].             (* OP_NOT_SUPPORTED *)
   Definition div_err : str := [68; 73; 86].        (* DIV_BY_ZERO *)
@@ -74,7 +76,7 @@ Section Variants.
     | VNull => [] | VInt z | VLong z => int_to_string z | VFloat f => f32_to_string f | VDouble f => f64_to_string f
     | VString s => s | VBool b => if b then [116; 114; 117; 101] else [102; 97; 108; 115; 101]
     | VDateTime t => time_to_string t | VTimeSpan d => int_to_string (Z.quot d ms) | VObject o => obj_to_string o
-    | VArray _ => []   (* element-wise fmt.Sprint joined by commas: not modelled, the correspondence skips array->string *)
+    | VArray l => arr_to_string l
     end.
 
   Definition parse_int (s : str) : Z := match string_to_int s with Some z => z | None => string_to_int_fallback s end.
@@ -200,23 +202,23 @@ Section Variants.
 
     (* comparisons: eq / lt / le on equal types after conversion; gt and ge are the mirrored host operators *)
     Definition compare_with (ci : Z -> Z -> bool) (c32 : F32 H -> F32 H -> bool) (c64 : F64 H -> F64 H -> bool)
-                            (cs : str -> str -> bool) (cb : option (bool -> bool -> bool)) (cobj : option (Z -> Z -> bool)) :=
+                            (cs : str -> str -> bool) (cb : option (bool -> bool -> bool)) (cobj : option (Z -> option Z -> bool)) :=
       fun a b => match a, b with
       | VInt x, VInt y | VLong x, VLong y | VTimeSpan x, VTimeSpan y | VDateTime x, VDateTime y => Ok (VBool (ci x y))
       | VFloat x, VFloat y => Ok (VBool (c32 x y)) | VDouble x, VDouble y => Ok (VBool (c64 x y))
       | VString x, VString y => Ok (VBool (cs x y))
       | VBool x, VBool y => match cb with Some f => Ok (VBool (f x y)) | None => Err op_err end
-      | VObject x, VObject y => match cobj with Some f => Ok (VBool (f x y)) | None => Err op_err end
-      | VInt _, _ | VLong _, _ | VTimeSpan _, _ | VDateTime _, _ | VFloat _, _ | VDouble _, _ | VString _, _ | VBool _, _ | VObject _, _ => Panic
+      | VObject x, y => match cobj with Some f => Ok (VBool (f x (match y with VObject o => Some o | _ => None end))) | None => Err op_err end
+      | VInt _, _ | VLong _, _ | VTimeSpan _, _ | VDateTime _, _ | VFloat _, _ | VDouble _, _ | VString _, _ | VBool _, _ => Panic
       | _, _ => Err op_err end.
 
     Definition equal (a b : value) : outcome value :=
       if is_null a && is_null b then Ok (VBool true) else if is_null a || is_null b then Ok (VBool false)
-      else bind (convert b (type_of a)) (compare_with Z.eqb (eq32 H) (eq64 H) str_eqb (Some Bool.eqb) (Some Z.eqb) a).
+      else bind (convert b (type_of a)) (compare_with Z.eqb (eq32 H) (eq64 H) str_eqb (Some Bool.eqb) (Some (fun x y => match y with Some y => x =? y | None => false end)) a).
     Definition not_equal (a b : value) : outcome value :=
       if is_null a && is_null b then Ok (VBool false) else if is_null a || is_null b then Ok (VBool true)
       else bind (convert b (type_of a)) (compare_with (fun x y => negb (x =? y)) (fun x y => negb (eq32 H x y)) (fun x y => negb (eq64 H x y))
-                                                      (fun x y => negb (str_eqb x y)) (Some (fun x y => negb (Bool.eqb x y))) (Some (fun x y => negb (x =? y))) a).
+                                                      (fun x y => negb (str_eqb x y)) (Some (fun x y => negb (Bool.eqb x y))) (Some (fun x y => match y with Some y => negb (x =? y) | None => true end)) a).
     Definition less := fun a b => arith a b (compare_with Z.ltb (lt32 H) (lt64 H) str_ltb None None).
     Definition more := fun a b => arith a b (compare_with Z.gtb (fun x y => lt32 H y x) (fun x y => lt64 H y x) (fun x y => str_ltb y x) None None).
     Definition less_equal := fun a b => arith a b (compare_with Z.leb (le32 H) (le64 H) (fun x y => negb (str_ltb y x)) None None).
